@@ -417,21 +417,24 @@ def rule_r4(chk, prog):
 
 def rule_r5(chk, prog):
     """Inputs of a sweep are identity-distinct (a proposal keyed by id hits
-    the position it was computed for) - shared with C13.R1."""
+    the position it was computed for) - shared with C13.R1-R4."""
     from . import c13
-    chk.rule('C02.R5', 'every sweep starts from a re-duplicated input '
-             '(shared with C13.R1): identity-keyed proposals hit the node '
-             'they were computed for')
+    chk.rule('C02.R5', 'every sweep starts from a re-duplicated input and '
+             're-duplication really yields identity-distinct nodes (shared '
+             'with C13.R1-R4): identity-keyed proposals hit the node they '
+             'were computed for')
     sub = Check('C13', 'other', 'quick', [], [])
-    c13.rule_r1(sub, prog)
+    chk.guard(c13.rule_r1, sub, prog)
+    chk.guard(c13.rule_r234, sub, prog)
     for r in sub.instances:
-        if 'strategy_hierarchical' in r['where']:
+        if 'strategy_hierarchical' in r['where'] or 'nodes.' in r['where']:
             chk.instance('C02.R5', r['where'], r['what'],
                          r['verdict'] == 'holds', r['argument'],
                          nontrivial=True, loc=r['loc'])
     for f_ in sub.findings:
-        if 'strategy_hierarchical' in f_.where:
-            chk.violation('C02.R5', f_.where, f_.construct, f_.msg, f_.loc)
+        if 'strategy_hierarchical' in f_.where or 'nodes.' in f_.where:
+            chk.violation('C02.R5', f_.where, f_.construct,
+                          f'[{f_.rule}] {f_.msg}', f_.loc)
 
 
 def run(tier):
@@ -456,10 +459,10 @@ def run(tier):
             'lowering skip for discarded results is an efficiency measure, '
             'deliberately not demanded',
         ])
-    rule_r1(chk, prog)
-    rule_r2(chk, prog)
-    rule_r4(chk, prog)
-    rule_r5(chk, prog)
+    chk.guard(rule_r1, chk, prog)
+    chk.guard(rule_r2, chk, prog)
+    chk.guard(rule_r4, chk, prog)
+    chk.guard(rule_r5, chk, prog)
     extra = None
     if tier == 'thorough':
         from .. import selftest
